@@ -345,6 +345,26 @@ theorem C17_template_names_come_from_the_record {R T : Type} (fmt : R → T → 
   · intro r g now now' hg
     simp [tmplTs, hg]
 
+/-- The template writer closed in the middle of its life and used again - any sequence of `write` and `close` calls, any
+    directory to start from: the run never fails to find a free rotation name; a `write` is refused only right after a
+    `close`, for the path that was current (and then changes nothing); and at the end the contents of the files that
+    existed before are all still there unchanged, while the files the writer created hold, in order, exactly the
+    records whose `write` returned - a later refusal or reopening never costs a record written before. -/
+theorem C17_template_closed_and_used_again {R : Type} (fs0 : FS R) (hnd : (names fs0).Nodup)
+    (hpre : ∀ f ∈ fs0, f.origin = none) (ops : List (TOp R)) :
+    ∃ s' oks, tmplRunC { t := { currentPath := none, fs := fs0 }, closed := false } ops = some (s', oks) ∧
+      oks.length = ops.length ∧
+      preOf (tagged s'.t.fs) = fs0.map (·.content) ∧
+      recsOf (tagged s'.t.fs) = acceptedWrites ops oks ∧
+      (names s'.t.fs).Nodup := by
+  obtain ⟨s0, h0, hp, hr, hn⟩ := C17_template fs0 hnd hpre []
+  simp only [tmplRun, Option.some.injEq] at h0
+  subst h0
+  have hinv : TmplInv ({ currentPath := none, fs := fs0 } : Tmpl R) (fs0.map (·.content)) [] :=
+    ⟨hnd, hp, by simpa using hr, (by intro p hp'; cases hp')⟩
+  obtain ⟨s', oks, hrun, hl, hinv'⟩ := tmplRunC_inv ops { t := { currentPath := none, fs := fs0 }, closed := false } _ _ hinv
+  exact ⟨s', oks, hrun, hl, hinv'.pre_kept, by simpa using hinv'.recs, hinv'.nodup⟩
+
 /-- The rotation target is free: after `rotate_existing_file` nothing is named like the path about to be opened, so
     opening it for writing truncates nothing. -/
 theorem C17_template_target_free {R : Type} (fs : FS R) (hnd : (names fs).Nodup) (path stamp : Name) :
@@ -367,6 +387,9 @@ theorem C17_template_rotation_overwrites_without_sequence :
 -- Non-vacuity: concrete histories, splits and rotations.
 namespace C17_nonvacuous
 example : tmplTs (some 5) 9 = 5 ∧ tmplTs (none : Option Nat) 9 = 9 := by decide
+example : (tmplRunC ({ t := { currentPath := none, fs := [] }, closed := false } : TmplC Nat)
+    [.write "A".toList "s".toList 1, .close, .write "A".toList "s".toList 2, .write "B".toList "s".toList 3]).map (·.2) =
+    some [true, true, false, true] := by decide
 example : (run avroFlags (Life.init : Life Nat) [.write 1, .write 2, .close, .close]).disk = [.full 1, .full 2] := by decide
 example : (run avroFlags (Life.init : Life Nat) [.write 1, .write 2]).buffer = [.full 1, .full 2] := by decide
 example : outcomes avroFlags (Life.init : Life Nat) [.write 1, .exit, .exit, .write 2] = [.ok, .ok, .ok, .raised] := by
